@@ -1552,9 +1552,26 @@ impl HashColumn {
 					table.validate_plan(record.index, log)?;
 				} else {
 					if record.table.index_bits() < tables.get_ref_count().id.index_bits() {
-						// Insertion into a previously dropped ref count.
+						// Insertion into an older ref count table that is not on disk: as for the
+						// index above, either the table was dropped by a later record of the same
+						// logs or the crash hit while this record was applied. Re-create it as a
+						// reindex source.
 						log::warn!( target: "parity-db", "Ref count {} is too old. Current is {}", record.table, tables.get_ref_count().id);
-						return Err(Error::Corruption("Unexpected log ref count id".to_string()))
+						let mut reindex = RwLockUpgradableReadGuard::upgrade(reindex);
+						let table = RefCountTable::create_new(self.path.as_path(), record.table);
+						let pos = reindex
+							.queue
+							.iter()
+							.position(|e| match e {
+								ReindexEntry::RefCount(t) =>
+									t.id.index_bits() > record.table.index_bits(),
+								ReindexEntry::Index(_) => false,
+							})
+							.unwrap_or(reindex.queue.len());
+						reindex.queue.insert(pos, ReindexEntry::RefCount(table));
+						std::mem::drop(reindex);
+						std::mem::drop(tables);
+						return self.validate_plan(LogAction::InsertRefCount(record), log)
 					}
 					// Re-launch previously started reindex
 					// TODO: add explicit log records for reindexing events.
